@@ -286,15 +286,16 @@ Example C15_example_prefix_free : forall a b s s', [Z.of_N a] ++ s = [Z.of_N b] 
 Proof. exact prefix_free_instance. Qed.
 (* the monitor rejects: F4's behaviour, a counted claim of a de-listed issuer, a refused valid claim,
    an issuer confirming after expiry / revocation / nonce bump / key removal, a nonce that does not move,
-   a removed key still listed for the topic *)
+   a removed key still listed for the topic, a revocation that lapses while ledgers close *)
 Example C15_monitor_rejects :
   check f4_trace = (4%N, 4%N, 0%N) /\ check delisted_trace = (9%N, 9%N, 0%N) /\
   check refused_trace = (8%N, 8%N, 0%N) /\
   map (fun k => snd (fst (check (still_confirmed k))))
       [Advance 50; SetRevoked 3%N 2%N 1 ex_data true; Invalidate 3%N 2%N 1; RemoveKey 3%N ex_pk 0%N 101 1]
   = [9%N; 9%N; 9%N; 9%N] /\
-  snd (fst (check stuck_nonce_trace)) = 9%N /\ snd (fst (check stale_key_trace)) = 9%N.
+  snd (fst (check stuck_nonce_trace)) = 9%N /\ snd (fst (check stale_key_trace)) = 9%N /\
+  snd (fst (check lapsed_revocation_trace)) = 10%N.
 Proof.
   exact (conj monitor_rejects_f4 (conj monitor_rejects_delisted (conj monitor_rejects_refusal
-        (conj monitor_rejects_stale_confirmation (conj monitor_rejects_stuck_nonce monitor_rejects_stale_key))))).
+        (conj monitor_rejects_stale_confirmation (conj monitor_rejects_stuck_nonce (conj monitor_rejects_stale_key monitor_rejects_lapsed_revocation)))))).
 Qed.
